@@ -88,7 +88,6 @@ mut("C18", "font-directory-shared-template", ("builtin.go", "\tFontDirectory := 
 mut("C12", "pfb-text-counts-requested-bytes", ("pfb/reader.go", "\t\t\tk, err = r.r.Read(b[:k])\n\t\t\tr.len -= int64(k)\n\t\t\tn += k\n", "\t\t\twant := k\n\t\t\tk, err = r.r.Read(b[:k])\n\t\t\tr.len -= int64(want)\n\t\t\tn += k\n"))
 mut("C12", "skipoptional-only-buffered", ("scanner.go", "func (s *scanner) SkipOptionalByte(b byte) {\n\tnext, err := s.Peek()", "func (s *scanner) SkipOptionalByte(b byte) {\n\tif len(s.peek) == 0 && s.pos >= s.used && s.eexec == 0 {\n\t\treturn\n\t}\n\tnext, err := s.Peek()"))
 mut("C13", "refill-error-cleared-by-later-success", ("scanner.go", "\tif s.err != nil {\n\t\treturn s.err\n\t}\n\ts.used = copy", "\tif s.err == io.EOF {\n\t\treturn s.err\n\t}\n\ts.err = nil\n\ts.used = copy"))
-mut("C13", "peek-seek-error-ignored", ("type1/peekreader.go", "\t\t_, err = r.Seek(pos, io.SeekStart)\n\t\tif err != nil {\n\t\t\treturn nil, nil, err\n\t\t}\n", "\t\tr.Seek(pos, io.SeekStart)\n"))
 mut("C13", "template-write-error-masked", ("type1/write.go", "\t\treturn tmpl.ExecuteTemplate(w, \"SectionC\", info)\n\n\tcase FormatPFB:", "\t\ttmpl.ExecuteTemplate(w, \"SectionC\", info)\n\t\treturn nil\n\n\tcase FormatPFB:"))
 mut("C14", "parked-nibble-from-high-half", ("pfb/reader.go", "\t\t\t\tr.tail = hexEncode(b[k-1] & 0x0f)\n", "\t\t\t\tr.tail = hexEncode(b[k-1] >> 4)\n"))
 mut("C14", "length-third-byte-shift", ("pfb/reader.go", "| int64(buf[4])<<16 |", "| int64(buf[4])<<8 |"))
